@@ -267,7 +267,7 @@ func replayPath(ctx *vrun.Ctx, prop string, f *Factory, path []tlc.Step, cache u
 				viol("best-header-not-ideal:"+op, fmt.Sprintf("%s: BestHeader is block %d, most-work accepted header chain(s) end at %v", where, hid, exp.F("hdrTips").Go()))
 				return nil
 			}
-			if hid >= 0 && int(hheight) != f.Sc.Height(hid) {
+			if hid >= 0 && int(hheight) != f.Sc.Height(hid)+int(f.BaseHeight) {
 				viol("best-header-height", fmt.Sprintf("%s: BestHeader height %d for block %d at height %d", where, hheight, hid, f.Sc.Height(hid)))
 				return nil
 			}
@@ -493,9 +493,18 @@ func RunModel(ctx *vrun.Ctx, prop string, m ModelCfg, timeout time.Duration) err
 				}
 				e.f.Preamble(5)
 			} else {
+				// four blocks below the scenario supply mature coins of several kinds from the first abstract block on,
+				// so that blocks carry multi-input transactions and in-block spending chains
 				e.f = NewFactory(sc, NetOpts{Maturity: 1, BIP34: false}, e.seed)
+				if !m.Headers { // with header deliveries the best-header view starts at the real genesis block: no blocks below the scenario
+					e.f.NoSpecial = true
+					e.f.Preamble(4)
+				}
 			}
 			e.f.BuildAll()
+			for k, v := range e.f.Stats {
+				ctx.AddExtra("factory:"+k, int64(v))
+			}
 			for b := 1; b <= sc.N; b++ {
 				if e.f.RuleName[b] != "" {
 					ctx.AddExtra("rule:"+e.f.RuleName[b], 1)
